@@ -15,3 +15,7 @@ func VerifRoute(h core.EventHandler, t codec.Command, slot int32) (string, bool)
 
 // VerifAuthCmd returns the AUTH command built by OnBoot.
 func VerifAuthCmd() string { return authCmd }
+
+// VerifResetAuthCmd clears the package-level AUTH command (it is only ever set by OnBoot; the
+// harness runs many servers in one process).
+func VerifResetAuthCmd() { authCmd = "" }
